@@ -38,9 +38,9 @@ pub struct C12;
 // ---------------------------------------------------------------------------------------------------------------
 // exclusions for on-tree findings (true = the generator avoids the construct); none needed so far
 /// C12-a (= F14 of DESIGN.md): Int8/Uint8/Int16/Uint16 typed-array element conversion saturates instead of wrapping.
-const EXCLUDE_SMALL_INT_TA_CONVERSION: bool = true;
+const EXCLUDE_SMALL_INT_TA_CONVERSION: bool = false;
 /// C12-b: String/Array.prototype.at(x) negates ToIntegerOrInfinity(x) = i64::MIN for x <= -2^63 (overflow panic).
-const EXCLUDE_AT_BELOW_I64_MIN: bool = true;
+const EXCLUDE_AT_BELOW_I64_MIN: bool = false;
 
 // ---------------------------------------------------------------------------------------------------------------
 // the abstract value and its observation through the public API
